@@ -87,23 +87,21 @@ inductive Res where
   | decodeErr
   deriving DecidableEq, Repr
 
-/-- `LinkSystem.Fill` after the choosers and the storage opener succeeded. -/
+/-- `LinkSystem.Fill` after the choosers and the storage opener succeeded.  Whatever the decoder did - succeeded after
+    reading everything, succeeded EARLY (a decoder configured with `DontParseBeyondEnd`), failed midway - the rest of the
+    stream is drained into the hasher before anything else is decided (since library fix: the drain used to happen only
+    after a decode error, so an early-stopping decoder had the hash taken over a prefix): an I/O error surfaces as
+    such, then the hash of the WHOLE stream is compared, and only then may a decode error be admitted. -/
 def fill (trusted : Bool) (l : Lnk) (s : Stream) (d : DecRun) : Res :=
   if trusted then (if d.failed then .decodeErr else .ok)
   else
-    let seenByDecoder := s.deliverable.take d.pulled
-    if d.failed then
-      -- drain the rest into the hasher; an I/O error surfaces as such
-      match s.failAt with
-      | some _ => .ioErr
-      | none =>
-        if hashesTo H l s.data then .decodeErr else .hashMismatch
-    else
-      if hashesTo H l seenByDecoder then .ok else .hashMismatch
+    match s.failAt with
+    | some _ => .ioErr
+    | none =>
+      if hashesTo H l s.data then (if d.failed then .decodeErr else .ok) else .hashMismatch
 
-/-- the bytes the hasher has seen when `fill` takes its decision -/
-def hasherSaw (s : Stream) (d : DecRun) : Bytes :=
-  if d.failed then s.deliverable else s.deliverable.take d.pulled
+/-- the bytes the hasher has seen when `fill` takes its decision: everything the stream delivers -/
+def hasherSaw (s : Stream) (_d : DecRun) : Bytes := s.deliverable
 
 /-- `LinkSystem.LoadRaw`: buffer everything, hash, compare; returns the block on success. -/
 def loadRaw (l : Lnk) (s : Stream) : Res × Option Bytes :=
